@@ -284,6 +284,14 @@ func fieldCell(c *value, index []int) *value {
 // ---------------------------------------------------------------------------
 // methods
 
+// isStdTime: time.Time itself (a user-defined type over it has no MarshalJSON and is not concerned).
+func isStdTime(t types.Type) bool {
+	n, ok := t.(*types.Named)
+	return ok && n.Obj().Pkg() != nil && n.Obj().Pkg().Path() == "time" && n.Obj().Name() == "Time"
+}
+
+const zeroTimeJSON = "0001-01-01T00:00:00Z"
+
 func isRawMessage(t types.Type) bool {
 	n, ok := t.(*types.Named)
 	return ok && n.Obj().Pkg() != nil && n.Obj().Pkg().Path() == "encoding/json" && n.Obj().Name() == "RawMessage"
@@ -325,6 +333,10 @@ func (p *path) jsonMarshal(caller *frame, t types.Type, v value, addressable boo
 			panic(jsonAbort{p.jsonError("json: error calling MarshalJSON for type json.RawMessage: invalid document")})
 		}
 		return n
+	}
+	if isStdTime(t) {
+		p.note("encoding/json model: time.Time values are the zero instant (time.Unix/Date/Now are opaque)")
+		return &jnode{kind: jStr, s: p.mkStr(zeroTimeJSON)}
 	}
 	// Marshaler
 	{
@@ -531,6 +543,16 @@ func (p *path) jsonUnmarshal(caller *frame, n *jnode, t types.Type, dest *value)
 	}
 	if isRawMessage(t) {
 		*dest = p.jsonBytes(n)
+		return
+	}
+	if isStdTime(t) {
+		if n.kind == jNull {
+			return
+		}
+		if n.kind != jStr || !n.s.IsConcrete() || n.s.Concrete() != zeroTimeJSON {
+			p.unsupported("encoding/json model: decoding a time other than the zero instant")
+		}
+		*dest = p.zero(t)
 		return
 	}
 	// Unmarshaler on *t (the destination is addressable)
